@@ -2,7 +2,8 @@
 import lib
 import cms_common as cc
 
-ALLOWED_AXIOMS = frozenset()
+import log_common as _L
+ALLOWED_AXIOMS = frozenset(_L.PRIMITIVES)   # Print Assumptions lists the kernel's primitive float/int operations under 'Axioms:'
 MANIFEST = dict(
     category="proof",
     text="Coq theorems for any two count-min states with counters in range: linear: merged cell = min(a+b, 2^32-1), "
